@@ -21,6 +21,8 @@ import Pog.Model.Registry
   response_strategy.ResponseStrategyResolver.resolve         `resolveStrategy`
   generators/response_handler_generator
     .generate_response_handling                              `arms`, `defaultAction`, `runAction`
+    ._is_ndjson_stream (streaming arm of
+      `_write_strategy_based_return`)                        `isNdjsonStream`, `streamJson`
   core/http_transport.HttpxTransport.request:192-200         `bundledClass`, the `.bundled` branch of `handle`
   emitters/exceptions_emitter (which alias classes exist)    `aliasBase` (Pog.Model.Registry)
   CPython compiling / importing the emitted module           `moduleOk`
@@ -453,6 +455,8 @@ inductive Strategy
   | union (m : List (Str × PyTy))
   /-- `is_streaming` with `AsyncIterator[bytes]` in the return type -/
   | streamBytes
+  /-- `is_streaming`, not bytes, and `_is_ndjson_stream`: `application/x-ndjson` declared, no event stream (repaired F43) -/
+  | streamNdjson
   /-- `is_streaming`, anything else -/
   | streamSse
   deriving DecidableEq, Repr
@@ -467,10 +471,24 @@ def Strategy.isUnion : Strategy → Bool
 
 def Strategy.isStreaming : Strategy → Bool
   | .streamBytes => true
+  | .streamNdjson => true
   | .streamSse => true
   | _ => false
 
-/-- `ResponseStrategyResolver.resolve` -/
+def mtNdjson : Str := "application/x-ndjson".toList
+
+/-- response_handler_generator `_is_ndjson_stream`: no key contains `event-stream` and some key, lower-cased, is
+    `application/x-ndjson` (the response has content whenever a streaming strategy is not `AsyncIterator[bytes]`). -/
+def isNdjsonStream (content : List Media) : Bool :=
+  !content.any (fun m => isInfix "event-stream".toList m.mt) && content.any (fun m => lowerAscii m.mt = mtNdjson)
+
+/-- The streaming arm of `_write_strategy_based_return` when the return type is not `AsyncIterator[bytes]`:
+    `iter_ndjson` for an NDJSON stream, else the SSE parser. -/
+def streamJson (content : List Media) : Strategy :=
+  if isNdjsonStream content then .streamNdjson else .streamSse
+
+/-- `ResponseStrategyResolver.resolve`, together with the one decision `_write_strategy_based_return` takes from
+    `strategy.response_ir` rather than from the return type (`streamJson`). -/
 def resolveStrategy (rs : List Resp) : Strategy :=
   match primaryA rs with
   | none => .none
@@ -478,9 +496,9 @@ def resolveStrategy (rs : List Resp) : Strategy :=
     if p.content.isEmpty then .none
     else if respStream p then
       if p.content.any (fun m => isBinaryCt m.mt) then .streamBytes
-      else if p.content.any (fun m => isInfix "event-stream".toList m.mt) then .streamSse
+      else if p.content.any (fun m => isInfix "event-stream".toList m.mt) then streamJson p.content
       else match strategyMedia p.content with
-        | some m => if shapeTy m.shape = .bytes then .streamBytes else .streamSse
+        | some m => if shapeTy m.shape = .bytes then .streamBytes else streamJson p.content
         | none => .streamBytes
     else if p.content.length > 1 then
       let mapping := p.content.map (fun m => (m.mt, ctTy m))
@@ -507,6 +525,8 @@ inductive RetKind
   | content
   /-- `async for chunk in iter_bytes(response): yield chunk` -/
   | streamBytes
+  /-- `async for item in iter_ndjson(response): yield item` -/
+  | streamNdjson
   /-- `async for chunk in iter_sse_events_text(response): yield json.loads(chunk)` -/
   | streamSse
   deriving DecidableEq, Repr
@@ -876,6 +896,7 @@ def strategyRet (s : Strategy) (r : Reply) : RetKind :=
   | .single t => tyRet t
   | .union m => unionDispatch (normCtype r.ctype) m
   | .streamBytes => .streamBytes
+  | .streamNdjson => .streamNdjson
   | .streamSse => .streamSse
 
 def RetKind.needsStructure : RetKind → Bool
